@@ -593,9 +593,9 @@ func compareUnpack(c *ucfg.Config, m *tree.Node) string {
 
 // observeC15 checks Path / Parent / FlattenedKeys / CompareConfigs against the model structure.
 func (u *pathUniverse) observeC15(st *pathState) (*core.Violation, bool) {
-	if st.mroot.Mixed() || hasDottedKey(st.mroot) {
-		// outside the quantifier: a node that is both dict and list; a literal key
-		// containing the separator makes the flattened spelling ambiguous
+	if hasDottedKey(st.mroot) {
+		// outside the quantifier: a literal key containing the separator makes the
+		// flattened spelling ambiguous
 		return nil, true
 	}
 	var viol *core.Violation
